@@ -464,3 +464,46 @@ CHECKS["C08"] = dict(CHECKS["C14"], **{
     "level_text": "Same exploration as C14 with the closure assertions: after a fault-free build every added source and every transitively reported dependency can be looked up, the path lies under the target directory, holds exactly the content the fetcher delivered for that location, and commit metadata comes back unchanged; relative dependencies resolve inside the declaring package and registry dependencies to the address the registry named joined with the caller's sub-path.",
     "anchors": CHECKS["C14"]["anchors"] + ["(*github.com/hashicorp/go-slug/sourcebundle.Bundle).LocalPathForSource", "(*github.com/hashicorp/go-slug/sourcebundle.Dependencies).AddLocalSource"],
 })
+
+
+CHECKS["C17"] = {
+    "registered": False,
+    "level_text": "Bounded model checking by symbolic execution of extractVersionListFromResponse + go-versions' List.Sort / NewestInSet / Set.Has (All, Released, Only, AtLeast, OlderThan, Intersection) and of the builder's registry path (findRegistryPackageSource, caches, deprecation capture, AddFinalRegistrySource) with symbolic version numbers, pre-release tags, list order and set bounds, against a brute-force maximum under an independently written semver order; z3 decides the relational comparisons.",
+    "level_note": SB_NOTE + " Version components are 8-bit values in 64-bit words (kernel) or {0,1,2} (builder, where versions are printed). One open known finding (KF-C17-zero-version) excludes its class.",
+    "explanation": "offered versions, their order, deprecations and the allowed set are symbolic; the selected version is compared with the brute-force newest offered-and-allowed one",
+    "anchors": ["github.com/hashicorp/go-slug/sourcebundle.extractVersionListFromResponse", "(*github.com/hashicorp/go-slug/sourcebundle.Builder).findRegistryPackageSource", "(*github.com/hashicorp/go-slug/sourcebundle.Builder).AddRegistrySource",
+                "(*github.com/hashicorp/go-slug/sourcebundle.Bundle).RegistryPackageVersionDeprecation"],
+    "bounds": {"quick": "kernel: 1 offered version with pre-release tag (1-2 chars), 2 offered versions without; 6 allowed-set shapes with symbolic bounds; builder: 1 offered version with components in {0,1,2}",
+               "thorough": "kernel: 2 versions with pre-release tags, 3 without; builder: 2 versions"},
+    "assumptions": SB_ASSUME + ["pre-release tags: one identifier of 1-2 characters [0-9a-z]"],
+    "groups": [sb_group("versions", ["harness/sourcebundle/c17.go"],
+                        quick=[{"id": "kernel-n1-pre", "entry": "HarnessC17Kernel", "params": {"n": 1, "pre": 1}, "shards": 2, "_w": 20},
+                               {"id": "kernel-n2", "entry": "HarnessC17Kernel", "params": {"n": 2, "pre": 0}, "shards": 8, "_w": 60},
+                               {"id": "builder-n1", "entry": "HarnessC17Builder", "params": {"n": 1}, "shards": 4, "_w": 20}],
+                        thorough=[{"id": "kernel-n2-pre", "entry": "HarnessC17Kernel", "params": {"n": 2, "pre": 1}, "shards": 16},
+                                  {"id": "kernel-n3", "entry": "HarnessC17Kernel", "params": {"n": 3, "pre": 0}, "shards": 16},
+                                  {"id": "builder-n2", "entry": "HarnessC17Builder", "params": {"n": 2}, "shards": 16}],
+                        reach=["none-allowed", "some-allowed"], sample_every=100)],
+}
+
+
+CHECKS["C13"] = {
+    "registered": False,
+    "level_text": "Bounded model checking by symbolic execution of two complete builds of the same scripted world in one run, with the Add calls in two different orders and with the iteration order of go-slug's own map ranges symbolic: manifest value (hence bytes and checksum under A-json), directory names, forward and reverse lookup answers are equal, and two packages share a directory exactly when the fetcher delivered the same files.",
+    "level_note": SB_NOTE + " Map iteration order is a symbolic permutation (all orders for <= 3 keys, rotations beyond) for up to 4 range statements per path. Goroutine schedules below lock granularity, data races and the memory model are not addressable by this technique: the 'schedules' half of the property is not claimed.",
+    "explanation": "Add order = symbolic permutation; map range order symbolic; content coincidence between packages symbolic; two builds compared field by field",
+    "anchors": ["(*github.com/hashicorp/go-slug/sourcebundle.Builder).writeManifest", "(*github.com/hashicorp/go-slug/sourcebundle.Builder).ensureRemotePackage", "(*github.com/hashicorp/go-slug/sourcebundle.Bundle).SourceForLocalPath",
+                "(*github.com/hashicorp/go-slug/sourcebundle.Bundle).ChecksumV1", "github.com/hashicorp/go-slug/sourcebundle.OpenDir"],
+    "bounds": {"quick": "2 packages, 2 Add calls in both orders, 0-1 dependencies per location, symbolic content coincidence, 4 symbolic map orders per path",
+               "thorough": "3 packages, 3 Add calls in all 6 orders, 1 dependency"},
+    "assumptions": SB_ASSUME + ["sequential executor: interleavings of concurrent Add calls are not explored"],
+    "groups": [sb_group("order", ["harness/sourcebundle/c13.go"],
+                        quick=[{"id": "order-p2a2d0", "entry": "HarnessC13Order", "params": {"nPkg": 2, "nAdds": 2, "nDeps": 0, "symContent": 1}, "map_order": 4, "shards": 2, "_w": 30},
+                               {"id": "order-p2a2d1", "entry": "HarnessC13Order", "params": {"nPkg": 2, "nAdds": 2, "nDeps": 1, "symContent": 0}, "map_order": 2, "shards": 8, "_w": 60}],
+                        thorough=[{"id": "order-p3a3d0", "entry": "HarnessC13Order", "params": {"nPkg": 3, "nAdds": 3, "nDeps": 0, "symContent": 1}, "map_order": 4, "shards": 16},
+                                  {"id": "order-p3a2d1", "entry": "HarnessC13Order", "params": {"nPkg": 3, "nAdds": 2, "nDeps": 1, "symContent": 1}, "map_order": 3, "shards": 16}],
+                        reach=["two-builds"], sample_every=100, native_retries=12)],
+}
+
+for _p in ("C08", "C13", "C14", "C17"):
+    CHECKS[_p]["registered"] = True
